@@ -70,7 +70,7 @@ def _ren_term(t, lo, bo):
     return t2
 
 
-def inline_unknown(jbodies, known):
+def inline_unknown(jbodies, known, adts=None):
     """mutates jbodies in place; returns {helper name: number of call sites inlined}"""
     byname = {}
     for k in jbodies:
@@ -110,7 +110,8 @@ def inline_unknown(jbodies, known):
                 ld2 = dict(ld)
                 ld2["inl"] = H
                 c["locals"].append(ld2)
-            if re.match(r"^(std|core)::(result::Result|option::Option)<", h["locals"][0]["ty"]):
+            rty = h["locals"][0]["ty"]
+            if re.match(r"^(std|core)::(result::Result|option::Option)<", rty) or (adts and _sg(rty) in ENUMS(adts)):
                 c.setdefault("_inl_roots", []).append(lo)
             for vd in h.get("var_debug", []):
                 vd2 = {k_: v_ for k_, v_ in vd.items() if k_ != "arg"}
@@ -147,7 +148,7 @@ def inline_unknown(jbodies, known):
             c["absorbed_parents"] = absorbed
             _devirtualise(c)
             if c.get("_inl_roots"):
-                split_variants(c, set(c["_inl_roots"]))
+                split_variants(c, set(c["_inl_roots"]), vmaps=ENUMS(adts) if adts else None)
     # a helper is absorbed when nothing refers to it any more except other (absorbed) helpers
     still = set()
 
@@ -187,6 +188,22 @@ def inline_unknown(jbodies, known):
 # the switch is resolved, so that dominance and reachability see the same paths as before the
 # extraction.  Only values that originate in the return place of an inlined helper are tracked.
 # ---------------------------------------------------------------------------------------------
+_ENUMS = {}
+
+
+def ENUMS(adts):
+    """enum name -> {variant name: index} for the crate's own enums with at least two variants"""
+    k = id(adts)
+    if k not in _ENUMS:
+        out = {}
+        for a in adts:
+            vs = a.get("variants") or []
+            if a.get("kind", "enum") in ("enum", "Enum") and len(vs) >= 2:
+                out[_sg(a["name"])] = {v["name"]: i for i, v in enumerate(vs)}
+        _ENUMS[k] = out
+    return _ENUMS[k]
+
+
 def _devirtualise(c):
     """a call through a local that holds a function item (a `fn` argument of an inlined helper that the caller
     passed as a constant) becomes a direct call"""
@@ -226,13 +243,61 @@ def _bare(pl):
     return pl is not None and not pl.get("p")
 
 
-def _transfer(blk, state, roots):
+def _flag_info(c):
+    """materialised conditions: bool locals with a constant definition and a definition copied from an expression
+    temp (`let over = a > b && !c;` -> `over = const false` on one path, `over = move _t` on the other).
+    Returns (flags, temps) with temps: single-definition locals -> rvalue."""
+    ndef, consts, exprs, rvs = {}, {}, {}, {}
+    for blk in c["blocks"]:
+        for st in blk["stmts"]:
+            if st.get("k") == "assign" and not st["place"]["p"]:
+                l = st["place"]["l"]
+                ndef[l] = ndef.get(l, 0) + 1
+                rvs[l] = st["rv"]
+                rv = st["rv"]
+                if rv["k"] == "use" and rv["op"].get("k") == "const" and rv["op"].get("ty") == "bool":
+                    consts[l] = consts.get(l, 0) + 1
+                elif (rv["k"] == "use" and rv["op"].get("k") in ("move", "copy") and _bare(rv["op"]["place"])) or (rv["k"] == "un" and rv.get("op") == "Not"):
+                    exprs[l] = exprs.get(l, 0) + 1
+        t = blk.get("term")
+        if t and t.get("k") == "call" and _bare(t.get("dest")):
+            l = t["dest"]["l"]
+            ndef[l] = ndef.get(l, 0) + 1
+            rvs[l] = {"k": "call"}
+    flags = {l for l in consts if exprs.get(l) and consts[l] + exprs[l] == ndef.get(l) and c["locals"][l]["ty"] == "bool"}
+    temps = {l: rv for l, rv in rvs.items() if ndef.get(l) == 1}
+    return flags, temps
+
+
+def _expr_of(M, temps, neg=False, depth=0):
+    """(local holding the tested atom, negated?) for a bool temp chain of copies / Not"""
+    while depth < 6:
+        depth += 1
+        rv = temps.get(M)
+        if rv is None:
+            return None
+        if rv["k"] == "use" and rv["op"].get("k") in ("move", "copy") and _bare(rv["op"]["place"]):
+            M = rv["op"]["place"]["l"]
+            continue
+        if rv["k"] == "un" and rv.get("op") == "Not" and rv["a"].get("k") in ("move", "copy") and _bare(rv["a"]["place"]):
+            M = rv["a"]["place"]["l"]
+            neg = not neg
+            continue
+        if rv["k"] in ("call", "bin"):
+            return (M, neg)
+        return None
+    return None
+
+
+def _transfer(blk, state, roots, vmaps=None, flags=None, temps=None):
     st_ = dict(state)
+    rewrite = None
     for st in blk["stmts"]:
         k = st.get("k")
         if k == "dead":
             st_.pop(st["l"], None)
             st_.pop(("d", st["l"]), None)
+            st_.pop(("b", st["l"]), None)
         elif k == "assign":
             P = st["place"]
             L = P["l"]
@@ -243,8 +308,35 @@ def _transfer(blk, state, roots):
             rk = rv["k"]
             newv = None
             newd = None
+            if flags and L in flags:
+                nb = None
+                if rk == "use" and rv["op"].get("k") == "const":
+                    nb = ("c", 1 if rv["op"].get("val") else 0)
+                elif rk == "use" and rv["op"].get("k") in ("move", "copy") and _bare(rv["op"]["place"]):
+                    M_ = rv["op"]["place"]["l"]
+                    if ("b", M_) in st_:
+                        nb = st_[("b", M_)]
+                    else:
+                        ex = _expr_of(M_, temps or {})
+                        nb = ("e", ex[0], ex[1]) if ex else None
+                elif rk == "un" and rv.get("op") == "Not" and rv["a"].get("k") in ("move", "copy") and _bare(rv["a"]["place"]):
+                    ex = _expr_of(rv["a"]["place"]["l"], temps or {}, neg=True)
+                    nb = ("e", ex[0], ex[1]) if ex else None
+                st_.pop(("b", L), None)
+                if nb is not None:
+                    st_[("b", L)] = nb
+            elif flags:
+                # a copy of a tracked flag into the temp that is then tested
+                cp = None
+                if rk == "use" and rv["op"].get("k") in ("move", "copy") and _bare(rv["op"]["place"]) and ("b", rv["op"]["place"]["l"]) in st_:
+                    cp = st_[("b", rv["op"]["place"]["l"])]
+                st_.pop(("b", L), None)
+                if cp is not None:
+                    st_[("b", L)] = cp
             if rk == "agg" and rv.get("akind") == "adt" and L in roots and rv.get("variant") in VAR and re.search(r"(Result|Option|ControlFlow)$", str(rv.get("name", ""))):
                 newv = VAR[rv["variant"]]
+            elif rk == "agg" and rv.get("akind") == "adt" and L in roots and vmaps and _sg(str(rv.get("name", ""))) in vmaps and rv.get("variant") in vmaps[_sg(str(rv.get("name", "")))]:
+                newv = vmaps[_sg(str(rv.get("name", "")))][rv["variant"]]
             elif rk == "use" and rv["op"].get("k") in ("move", "copy") and _bare(rv["op"]["place"]):
                 M = rv["op"]["place"]["l"]
                 if M in st_:
@@ -291,7 +383,16 @@ def _transfer(blk, state, roots):
                 st_.pop(t["place"]["l"], None)
         elif k == "switch":
             d = t["discr"]
-            if d.get("k") in ("move", "copy") and _bare(d["place"]) and ("d", d["place"]["l"]) in st_:
+            if d.get("k") in ("move", "copy") and _bare(d["place"]) and ("b", d["place"]["l"]) in st_:
+                fb = st_[("b", d["place"]["l"])]
+                if fb[0] == "c":
+                    resolved = t["otherwise"]
+                    for v, bb in t["targets"]:
+                        if v == fb[1]:
+                            resolved = bb
+                else:
+                    rewrite = (fb[1], fb[2])
+            elif d.get("k") in ("move", "copy") and _bare(d["place"]) and ("d", d["place"]["l"]) in st_:
                 val, src_l = st_[("d", d["place"]["l"])]
                 resolved = t["otherwise"]
                 for v, bb in t["targets"]:
@@ -300,11 +401,12 @@ def _transfer(blk, state, roots):
                 # the knowledge has served its purpose: forget it, so that the paths merge again behind the switch
                 st_.pop(("d", d["place"]["l"]), None)
                 st_.pop(src_l, None)
-    return st_, resolved
+    return st_, resolved, rewrite
 
 
-def split_variants(c, roots, factor=4):
+def split_variants(c, roots, factor=4, vmaps=None):
     blocks = c["blocks"]
+    flags, temps = _flag_info(c)
     key0 = (0, frozenset())
     ids = {key0: 0}
     order = [key0]
@@ -315,7 +417,7 @@ def split_variants(c, roots, factor=4):
         bb, fs = order[i]
         i += 1
         blk = blocks[bb]
-        st_out, resolved = _transfer(blk, dict(fs), roots)
+        st_out, resolved, rewrite = _transfer(blk, dict(fs), roots, vmaps, flags, temps)
         fso = frozenset(st_out.items())
 
         def nid(tb):
@@ -337,6 +439,13 @@ def split_variants(c, roots, factor=4):
                     t2[key] = nid(t[key])
             if t.get("k") == "switch":
                 t2["targets"] = [[v, nid(b_)] for v, b_ in t["targets"]]
+                if rewrite is not None and len(t["targets"]) == 1 and t["targets"][0][0] == 0:
+                    # the flag tested here is, on this path, a copy (or the negation) of an expression temp: test that temp
+                    t2["discr"] = {"k": "copy", "place": {"l": rewrite[0], "p": []}}
+                    t2["rewritten_flag"] = t["discr"]["place"]["l"]
+                    if rewrite[1]:
+                        t2["targets"] = [[0, nid(t["otherwise"])]]
+                        t2["otherwise"] = nid(t["targets"][0][1])
             if "succ" in t:
                 t2["succ"] = [nid(b_) for b_ in t["succ"]]
             nb["term"] = t2
